@@ -1,4 +1,4 @@
-CONSTANTS N = 5  StartRule = "same"  MaxTr = 2
+CONSTANTS N = 4  StartRule = "same"  MaxTr = 2
 SPECIFICATION Spec
 INVARIANT FairWindow FairBound
 CONSTRAINT Bounded
